@@ -24,7 +24,7 @@ Close Scope Q_scope.
    Sentence 2: "Operations that transform one attribute ... change exactly that attribute by the stated map
    and leave indices, topology and every other attribute untouched."
 
-   Packaged: for all 20 modelled operations, every well-formed input and every parameter, the result of the
+   Packaged: for all 22 modelled operations, every well-formed input and every parameter, the result of the
    operation satisfies its contract [contract o ins out] - the boolean conjunction, per operation, of exactly
    the clauses spelled out one by one below (corner content of the survivors, which primitives survive and
    in which order, identity / offset indices, no unreferenced vertex, key set, materials, the frame law of
@@ -248,6 +248,22 @@ Theorem weld_unweld : forall (K : Type) (keq : K -> K -> bool) (keyf : vec -> K)
 Proof. intros K keq keyf H. exact (PureLaws.weld_unweld keq keyf H). Qed.
 Print Assumptions weld_unweld.
 
+(* SliceByPlaneWithAttribute (not named in the sentence, same kind of contract), for EVERY side test: the
+   first half holds exactly the triangles all of whose corners are clipped, the second those none of whose
+   corners is, in order, corner content unchanged, no unreferenced vertex; no triangle is in both *)
+Theorem slice_spec : forall a clip m d, wf m -> topology m = Triangle -> lookup (3%N, a) (attrs m) = Some d ->
+  let above := filter (forallb (fun i => clip (nth i d []))) (chunk3 (indices m)) in
+  let below := filter (forallb (fun i => negb (clip (nth i d [])))) (chunk3 (indices m)) in
+  exists ra rb, slice a clip m = Ok [ra; rb]
+    /\ prims ra = map (map (row m)) above /\ prims rb = map (map (row m)) below
+    /\ corners ra = map (row m) (concat above) /\ corners rb = map (row m) (concat below)
+    /\ (forall v, v < nverts ra -> In v (indices ra)) /\ (forall v, v < nverts rb -> In v (indices rb))
+    /\ topology ra = Triangle /\ topology rb = Triangle
+    /\ materials ra = materials m /\ materials rb = materials m
+    /\ (forall t, In t above -> In t below -> t = []).
+Proof. exact PureLaws.slice_spec. Qed.
+Print Assumptions slice_spec.
+
 (* ------------------------------------------------------------------ single-attribute transforms *)
 
 (* the frame law: an operation that rewrites attribute k by the pointwise map g changes exactly that
@@ -276,6 +292,19 @@ Theorem transforms_are_pointwise : forall a,
   (forall t, apply_trs a t = modify_attr (3%N, a) (map (trs_v t))).
 Proof. intros a. repeat split. Qed.
 Print Assumptions transforms_are_pointwise.
+
+(* ScaleAttributeAlongNormal: exactly attribute a changes, v_i becomes v_i + amount * n_i with n the values
+   of the normal attribute (polynomial: exact, compared in Coq - no longer a tolerance check) *)
+Theorem scale_along_normal_spec : forall a nrm amt m d dn, wf m ->
+  lookup (3%N, a) (attrs m) = Some d -> lookup (3%N, nrm) (attrs m) = Some dn -> d <> [] ->
+  exists r d', scale_along_normal a nrm amt m = Ok [r]
+    /\ topology r = topology m /\ indices r = indices m /\ materials r = materials m
+    /\ lookup (3%N, a) (attrs r) = Some d' /\ length d' = length d
+    /\ (forall i, i < length d -> nth i d' [] = vzip Z.add (nth i d []) (map (Z.mul amt) (nth i dn [])))
+    /\ (forall k', k' <> (3%N, a) -> lookup k' (attrs r) = lookup k' (attrs m))
+    /\ keys r = keys m.
+Proof. exact PureLaws.scale_along_normal_spec. Qed.
+Print Assumptions scale_along_normal_spec.
 
 (* centre: one common vector (the bounding-box midpoint) is subtracted from every value *)
 Theorem center_only_attr : forall a m d, lookup (3%N, a) (attrs m) = Some d -> d <> [] ->
@@ -366,7 +395,7 @@ Print Assumptions centre_laws.
 
 (* ------------------------------------------------------------------ the oracle is satisfied by the model *)
 
-(* for all 20 modelled operations and all well-formed inputs the boolean contract that the check
+(* for all 22 modelled operations and all well-formed inputs the boolean contract that the check
    evaluates on the IMPLEMENTATION's output holds of the MODEL's output: so on every case where
    corr_ok (model = implementation) holds, prop_ok is implied, and a prop_ok failure can only come
    from the implementation *)
@@ -391,6 +420,14 @@ Theorem law_weld_unweld : forall a dv m d, wf m -> topology m = Triangle ->
     /\ law_ok (LWeldUnweld a dv) [r1; r2] = true.
 Proof. exact law_weld_unweld_model. Qed.
 Print Assumptions law_weld_unweld.
+
+(* "... and nothing else", over time: a result is a value.  Whatever operations follow (on any mesh of the
+   pool, the result itself included), every mesh of the pool is still there, unchanged.  (On the real Go
+   values this is what the retained-value stream - case CKeep - re-reads after every later operation.) *)
+Theorem results_are_values : forall h1 h2 pool i m,
+  nth_error (run h1 pool) i = Some m -> nth_error (run (h1 ++ h2) pool) i = Some m.
+Proof. intros h1 h2 pool i m H. rewrite run_app. apply run_keeps, H. Qed.
+Print Assumptions results_are_values.
 
 (* ------------------------------------------------------------------ non-vacuity *)
 (* a mesh with an unreferenced vertex (3), duplicated vertices (0 and 4), two attributes and two material
